@@ -49,17 +49,7 @@ pub fn replay_file(path: &std::path::Path) -> i32 {
                 }
             }
         }
-        "c02-race" => match c02::replay(case) {
-            Ok(()) => {
-                println!("replay: no violation");
-                0
-            }
-            Err(e) => {
-                println!("replay: {e}");
-                println!("VIOLATION property=C02 replay={}", path.display());
-                1
-            }
-        },
+        "c02-race" => verdict("C02", path, c02::replay(case)),
         "c07-trace" => verdict("C07", path, c07::replay(case)),
         "c15-trace" => verdict("C15", path, c15::replay(case)),
         "c19-trace" => verdict("C19", path, c19::replay(case)),
@@ -112,6 +102,12 @@ fn verdict(prop: &str, path: &std::path::Path, r: Result<(), String>) -> i32 {
         Ok(()) => {
             println!("replay: no violation");
             0
+        }
+        Err(e) if e.starts_with("replay divergence") => {
+            // the recorded schedule cannot be followed on this tree (the code no longer makes
+            // the same requests): not a verdict
+            println!("replay: {e} -- the recorded schedule does not apply to the current tree");
+            2
         }
         Err(e) => {
             println!("replay: {e}");
